@@ -265,8 +265,13 @@ def apply_format(un, fmt):
     
         Although the format type may be specified as ``'%'``, this will be interpreted as ``'f'`` and the value and uncertainty will
         not be multiplied by 100. See :func:`create_format` for more details.
+        Likewise the types ``'e'``, ``'E'``, ``'g'``, ``'G'`` and ``'n'`` are interpreted as ``'f'``: the value and
+        uncertainty are not divided by a power of ten.
     """
-    if fmt._type == '%':
+    if fmt._type in ('%', 'e', 'E', 'g', 'G', 'n'):
+        # The exponent presentation types divide the value and uncertainty
+        # by a power of ten (and '%' multiplies them by 100) for display in
+        # a string only: the numbers returned here stay in the units of `un`.
         # JSB: It is a bad idea to apply type=% to an uncertain number. In the
         # string representation it is okay because a "%" symbol is printed at
         # the end; however, in a FormattedUncertain* object a user would not
